@@ -481,3 +481,283 @@ Section Nested.
     exact (Hno n Hn1 Hn2).
   Qed.
 End Nested.
+
+(* ------------------------------------------------------------------ *)
+(** * the converse direction *)
+
+Section AgreeBoth.
+  Variable rec : Z -> val -> res val.
+
+  Definition both_ok (D : list string) (steps : list nested)
+             (a b : res (list (string * val))) : Prop :=
+    match a, b with
+    | Ok fsj, Ok fse => Forall2 (item_done D steps) fsj fse
+    | Ok _, _ | _, Ok _ => False
+    | _, _ => True
+    end.
+
+  Lemma both_ok_weaken D D' s s' a b :
+    (forall fsj fse, Forall2 (item_done D s) fsj fse -> Forall2 (item_done D' s') fsj fse) ->
+    both_ok D s a b -> both_ok D' s' a b.
+  Proof. intros H. destruct a, b; simpl; auto. Qed.
+
+  (* the two sides succeed together, and then agree except under keys nobody resolves *)
+  Lemma resolve_sim : forall steps D fj fe,
+      NoDup (map fst fe) ->
+      Forall2 (item_rel rec D steps) fj fe ->
+      both_ok D steps (resolve_nested rec steps fj) (resolve_nested rec steps fe).
+  Proof.
+    induction steps as [|n tl IH]; intros D fj fe Hnd HR.
+    - simpl. eapply Forall2_impl; [exact HR|]. intros x y _ _ [Hk [[Hv _]|[HD _]]]; split; auto.
+    - pose proof (Forall2_keys _ _ _ _ _ HR) as Hkeys.
+      simpl.
+      destruct (lookup_rel rec D (n :: tl) (n_param n) fj fe HR) as [[Hj He]|[vj [ve [Hj [He Hrel]]]]];
+        rewrite Hj, He.
+      + assert (Hweak : Forall2 (item_rel rec D tl) fj fe).
+        { eapply Forall2_impl; [exact HR|]. intros x y _ _ [Hk [Hv|[HD Hp]]]; split; auto.
+          right. split; [assumption|]. now apply pending_weaken in Hp. }
+        assert (Hfin : forall fsj fse, map fst fsj = map fst fj ->
+                                       Forall2 (item_done D tl) fsj fse -> Forall2 (item_done D (n :: tl)) fsj fse).
+        { intros fsj fse Hk HF. eapply Forall2_impl; [exact HF|].
+          intros x y Hx _ [Hkx [Hv|[HD Hno]]]; split; auto. right. split; [assumption|].
+          intros m [Hm|Hm]; [|now apply Hno]. subst m. intro E.
+          apply lookup_none_keys in Hj. apply Hj. rewrite <- Hk, E. now apply in_map. }
+        assert (Hgo : both_ok D (n :: tl) (resolve_nested rec tl fj) (resolve_nested rec tl fe)).
+        { specialize (IH D fj fe Hnd Hweak).
+          destruct (resolve_nested rec tl fj) as [fsj| |] eqn:E1;
+            destruct (resolve_nested rec tl fe) as [fse| |] eqn:E2; simpl in *; auto.
+          apply Hfin; [eapply resolve_nested_keys; eauto|assumption]. }
+        destruct (n_guarded n); [exact Hgo|].
+        destruct (rec (n_family n) VNone) as [o| |]; simpl; auto.
+      + destruct Hrel as [_ [[Hv HnD]|[HD Hp]]].
+        * simpl in Hv, HnD. subst ve.
+          assert (Hfin : forall fsj fse, Forall2 (item_done D tl) fsj fse -> Forall2 (item_done D (n :: tl)) fsj fse).
+          { intros fsj fse HF. eapply Forall2_impl; [exact HF|].
+            intros x y _ _ [Hkx [Hv|[HDx Hno]]]; split; auto. right. split; [assumption|].
+            intros m [Hm|Hm]; [|now apply Hno]. subst m. intro E. apply HnD. now rewrite E. }
+          destruct (n_guarded n && is_none vj).
+          -- assert (Hweak : Forall2 (item_rel rec D tl) fj fe).
+             { eapply Forall2_impl; [exact HR|]. intros x y _ _ [Hk [Hv|[HDx Hpx]]]; split; auto.
+               right. split; [assumption|]. now apply pending_weaken in Hpx. }
+             eapply both_ok_weaken; [exact Hfin|]. now apply IH.
+          -- destruct (rec (n_family n) vj) as [o| |]; simpl; auto.
+             assert (Hweak : Forall2 (item_rel rec D tl) (set_key (n_param n) o fj) (set_key (n_param n) o fe)).
+             { unfold set_key. eapply Forall2_map_in; [exact HR|].
+               intros [kx vx] [ky vy] _ _ [Hk Hd]. simpl in Hk. subst ky. simpl.
+               destruct (String.eqb_spec (n_param n) kx) as [E|E].
+               - split; [reflexivity|]. left. simpl. split; [reflexivity|]. now rewrite <- E.
+               - split; [reflexivity|]. simpl in *. destruct Hd as [Hd|[HDx Hpx]]; [now left|right].
+                 split; [assumption|]. now apply pending_weaken in Hpx. }
+             assert (Hnd' : NoDup (map fst (set_key (n_param n) o fe))) by now rewrite set_key_keys.
+             eapply both_ok_weaken; [exact Hfin|]. now apply IH.
+        * destruct Hp as [Hnj [Hne Hsteps]]. simpl in Hnj, Hne, HD, Hsteps.
+          rewrite Hnj, Hne. rewrite !andb_false_r.
+          destruct (Hsteps n (or_introl eq_refl) eq_refl) as [Hr1 Hr2].
+          rewrite Hr1, Hr2. simpl.
+          rewrite (set_key_same _ _ _ Hnd He).
+          set (D' := filter (fun k => negb (String.eqb k (n_param n))) D).
+          assert (HD' : forall k, In k D' <-> In k D /\ k <> n_param n).
+          { intros k. unfold D'. rewrite filter_In. rewrite negb_true_iff.
+            destruct (String.eqb_spec k (n_param n)); intuition congruence. }
+          assert (Hweak : Forall2 (item_rel rec D' tl) (set_key (n_param n) ve fj) fe).
+          { rewrite <- (map_id fe). unfold set_key. eapply Forall2_map_in; [exact HR|].
+            intros [kx vx] [ky vy] Hx Hy [Hk Hd]. simpl in Hk. subst ky. simpl.
+            destruct (String.eqb_spec (n_param n) kx) as [E|E].
+            - subst kx. split; [reflexivity|]. left. simpl.
+              rewrite (in_lookup _ _ _ Hnd Hy) in He. inversion He; subst.
+              split; [reflexivity|]. rewrite HD'. tauto.
+            - split; [reflexivity|]. simpl in *. destruct Hd as [[Hd1 Hd2]|[HDx Hpx]].
+              + left. split; [assumption|]. rewrite HD'. tauto.
+              + right. split; [apply HD'; split; [assumption|congruence]|].
+                now apply pending_weaken in Hpx. }
+          eapply both_ok_weaken; [|apply (IH D' _ _ Hnd Hweak)].
+          intros fsj fse HF. eapply Forall2_impl; [exact HF|].
+          intros x y _ _ [Hkx [Hv|[HDx Hno]]]; split; auto. right.
+          apply HD' in HDx as [HDx Hne']. split; [assumption|].
+          intros m [Hm|Hm]; [subst m; congruence|now apply Hno].
+  Qed.
+End AgreeBoth.
+
+Section Converse.
+  Variable r : registry.
+
+  Lemma explicit_args_mono (ex1 ex2 : cfg -> res val) :
+    (forall g v, ex1 g = Ok v -> ex2 g = Ok v) ->
+    forall kw args, explicit_args ex1 kw = Ok args -> explicit_args ex2 kw = Ok args.
+  Proof.
+    intros Hle. induction kw as [|[k [v|g]] tl IH]; intros args H; simpl in *; [assumption| |].
+    - destruct (explicit_args ex1 tl) as [l| |]; simpl in H; try discriminate.
+      rewrite (IH l eq_refl). exact H.
+    - destruct (ex1 g) as [o| |] eqn:E; simpl in H; try discriminate.
+      rewrite (Hle _ _ E). simpl.
+      destruct (explicit_args ex1 tl) as [l| |]; simpl in H; try discriminate.
+      rewrite (IH l eq_refl). exact H.
+  Qed.
+
+  Lemma explicit_step : forall f g v, explicit r f g = Ok v -> explicit r (S f) g = Ok v.
+  Proof.
+    induction f as [|f IH]; intros g v H; [discriminate|].
+    destruct g as [c a st kw]. simpl in H.
+    destruct (explicit_args (explicit r f) kw) as [args| |] eqn:E; simpl in H; try discriminate.
+    change (explicit r (S (S f)) (Cfg c a st kw))
+      with (bind (explicit_args (explicit r (S f)) kw) (fun args => construct r (S f) c args)).
+    rewrite (explicit_args_mono _ _ IH _ _ E). simpl.
+    unfold construct in *. eapply construct_with_mono; [|exact H]. apply from_arg_step.
+  Qed.
+
+  Lemma explicit_mono : forall f f' g v, f <= f' -> explicit r f g = Ok v -> explicit r f' g = Ok v.
+  Proof.
+    intros f f' g v Hle. induction Hle as [|f' _ IH]; [auto|].
+    intros H. apply explicit_step. now apply IH.
+  Qed.
+
+  (* a successful run resolved the parameter [k], and the first resolution saw
+     the value that was passed *)
+  Lemma resolve_first_step rec : forall steps fj fsj k vj,
+      resolve_nested rec steps fj = Ok fsj ->
+      lookup k fj = Some vj -> is_none vj = false ->
+      (exists n, In n steps /\ n_param n = k) ->
+      exists n o, In n steps /\ n_param n = k /\ rec (n_family n) vj = Ok o.
+  Proof.
+    induction steps as [|n tl IH]; intros fj fsj k vj Hres Hl Hnn [m [Hm Hk]]; [destruct Hm|].
+    simpl in Hres. destruct (String.eqb_spec (n_param n) k) as [E|E].
+    - rewrite E, Hl, Hnn, andb_false_r in Hres.
+      destruct (rec (n_family n) vj) as [o| |] eqn:Er; simpl in Hres; try discriminate.
+      exists n, o. repeat split; auto. now left.
+    - assert (Hm' : exists n0, In n0 tl /\ n_param n0 = k).
+      { destruct Hm as [Hm|Hm]; [subst; contradiction|]. now exists m. }
+      assert (Hcont : forall fj', lookup k fj' = Some vj -> resolve_nested rec tl fj' = Ok fsj ->
+                                  exists n0 o, In n0 (n :: tl) /\ n_param n0 = k /\ rec (n_family n0) vj = Ok o).
+      { intros fj' Hl' Hr'. destruct (IH fj' fsj k vj Hr' Hl' Hnn Hm') as [n0 [o [H1 [H2 H3]]]].
+        exists n0, o. repeat split; auto. now right. }
+      assert (Hset : forall o, lookup k (set_key (n_param n) o fj) = Some vj).
+      { intros o. clear -Hl E. induction fj as [|[k' v'] l IHl]; simpl in *; [discriminate|].
+        destruct (String.eqb_spec (n_param n) k'); simpl.
+        - destruct (String.eqb_spec k k'); [congruence|]. now apply IHl.
+        - destruct (String.eqb_spec k k'); [assumption|]. now apply IHl. }
+      destruct (lookup (n_param n) fj) as [v|].
+      + destruct (n_guarded n && is_none v); [now apply (Hcont fj)|].
+        destruct (rec (n_family n) v) as [o| |]; simpl in Hres; try discriminate.
+        apply (Hcont _ (Hset o) Hres).
+      + destruct (n_guarded n); [now apply (Hcont fj)|].
+        destruct (rec (n_family n) VNone) as [o| |]; simpl in Hres; try discriminate.
+        now apply (Hcont fj).
+  Qed.
+
+  Lemma items_lookup kw k g :
+    NoDup (map fst kw) -> In (k, Nested g) kw -> lookup k (items kw) = Some (to_json g).
+  Proof.
+    intros Hnd Hin. apply in_lookup; [now rewrite items_keys|].
+    unfold items. apply in_map_iff. exists (k, Nested g). split; [reflexivity|assumption].
+  Qed.
+
+  (* all components can be built explicitly with one common amount of fuel *)
+  Lemma explicit_args_exists : forall kw,
+      (forall k g, In (k, Nested g) kw -> exists f o, explicit r f g = Ok o) ->
+      exists f args, explicit_args (explicit r f) kw = Ok args.
+  Proof.
+    induction kw as [|[k [v|g]] tl IH]; intros H.
+    - exists 0, []. reflexivity.
+    - destruct IH as [f [args Ha]]; [intros; eapply H; right; eauto|].
+      exists f, ((k, v) :: args). simpl. now rewrite Ha.
+    - destruct IH as [f [args Ha]]; [intros; eapply H; right; eauto|].
+      destruct (H k g (or_introl eq_refl)) as [f1 [o Ho]].
+      exists (Nat.max f f1), ((k, o) :: args). simpl.
+      rewrite (explicit_mono f1 _ g o (Nat.le_max_r _ _) Ho). simpl.
+      rewrite (explicit_args_mono (explicit r f) (explicit r (Nat.max f f1))
+                                  (fun g0 v0 => explicit_mono f _ g0 v0 (Nat.le_max_l _ _)) _ _ Ha).
+      reflexivity.
+  Qed.
+
+  (** Converse of [nested_build_eq_l]: if building from the JSON document succeeds,
+      explicit construction succeeds too, with the same object. *)
+  Theorem nested_build_conv_l : forall F g fam v,
+      wf_cfg r fam g -> from_arg r F fam (to_json g) = Ok v ->
+      exists f, explicit r f g = Ok v.
+  Proof.
+    induction F as [|F IH]; intros g fam v Hwf Hj; [discriminate|].
+    inversion Hwf as [fam' ft c a st kw i Hs Hc Hi Hnd Ha Hcls Hn Hnest]; subst.
+    rewrite (from_arg_to_json r F fam ft c a st kw Hs Hc Ha Hcls Hn) in Hj.
+    unfold construct, construct_with in Hj. rewrite Hi in Hj.
+    destruct (ci_abstract i) eqn:Eabs; [discriminate|].
+    destruct (negb (bind_ok i (items kw))) eqn:Ebind; [discriminate|].
+    destruct (resolve_nested (from_arg r F) (ci_nested i) (items kw)) as [fsj| |] eqn:Eres;
+      simpl in Hj; try discriminate.
+    inversion Hj; subst v. clear Hj.
+    (* every component is built by the first resolution of its parameter *)
+    assert (Hcomp : forall k g', In (k, Nested g') kw -> exists f o, explicit r f g' = Ok o).
+    { intros k g' Hin. destruct (Hnest k g' Hin) as [Hex Hall].
+      destruct (resolve_first_step _ _ _ _ k (to_json g') Eres (items_lookup kw k g' Hnd Hin)
+                                   (to_json_not_none g') Hex) as [n [o [Hn1 [Hn2 Hn3]]]].
+      destruct (IH g' (n_family n) o (Hall n Hn1 Hn2) Hn3) as [f Hf]. now exists f, o. }
+    destruct (explicit_args_exists kw Hcomp) as [f0 [args Eargs]].
+    set (d := cfg_depth (Cfg c a st kw)).
+    set (M := Nat.max F (d + f0)).
+    set (rec' := from_arg r M).
+    assert (HleF : rec_le (from_arg r F) rec') by (apply from_arg_mono; unfold M; lia).
+    pose proof (explicit_args_rel _ _ _ Eargs) as Hrel.
+    assert (Hkeys : keys (items kw) = keys args).
+    { unfold keys. rewrite items_keys. clear -Hrel. induction Hrel as [|p q ? ? [Hk _] _ IHr]; simpl; congruence. }
+    set (D := map fst (filter (fun p => match snd p with Nested _ => true | Plain _ => false end) kw)).
+    assert (HD : forall k, In k D <-> exists g', In (k, Nested g') kw).
+    { intros k. unfold D. rewrite in_map_iff. split.
+      - intros [[k' [v'|g']] [Hk Hin]]; apply filter_In in Hin as [Hin Hb]; simpl in *; try discriminate.
+        subst. now exists g'.
+      - intros [g' Hin]. exists (k, Nested g'). split; [reflexivity|]. apply filter_In. now split. }
+    assert (Hndargs : NoDup (map fst args)).
+    { unfold keys in Hkeys. rewrite <- Hkeys, items_keys. exact Hnd. }
+    assert (HR : Forall2 (item_rel rec' D (ci_nested i)) (items kw) args).
+    { unfold items. rewrite <- (map_id args).
+      eapply Forall2_map_in; [exact Hrel|].
+      intros [k [v'|g']] [k2 o] Hin _ [Hk Hv]; simpl in Hk, Hv; subst k2.
+      - subst o. split; [reflexivity|]. left. split; [reflexivity|]. simpl.
+        rewrite HD. intros [g' Hin']. clear -Hnd Hin Hin'.
+        assert (Plain v' = Nested g'); [|discriminate].
+        { revert Hnd Hin Hin'. induction kw as [|[k0 a0] tl IHk]; simpl; intros Hnd H1 H2; [destruct H1|].
+          inversion Hnd as [|? ? Hn0 Hd0]; subst.
+          destruct H1 as [H1|H1], H2 as [H2|H2].
+          - congruence.
+          - inversion H1; subst. exfalso. apply Hn0. change k with (fst (k, Nested g')). now apply in_map.
+          - inversion H2; subst. exfalso. apply Hn0. change k with (fst (k, Plain v')). now apply in_map.
+          - now apply IHk. }
+      - split; [reflexivity|]. right. split; [apply HD; now exists g'|].
+        destruct (Hnest k g' Hin) as [_ Hall].
+        repeat split; simpl.
+        + apply to_json_not_none.
+        + destruct g' as [c' a' st' kw']. destruct (explicit_ok_inst _ _ _ _ _ _ _ Hv) as [fs Ho]. now subst o.
+        + apply (from_arg_mono r (cfg_depth g' + f0) M).
+          * pose proof (nested_depth c a st kw k g' Hin). fold d in H1. unfold M. lia.
+          * apply nested_build_eq_l; [now apply Hall|exact Hv].
+        + specialize (Hall n H H0). inversion Hall as [fam2 ft2 c2 a2 st2 kw2 i2 Hs2 Hc2]; subst.
+          destruct (explicit_ok_inst _ _ _ _ _ _ _ Hv) as [fs Ho]. subst o.
+          unfold rec'. assert (1 <= M) by (unfold M, d; simpl; lia).
+          replace M with (S (M - 1)) by lia.
+          apply from_arg_instance_l. eapply tree_from_alias_is_subclass; eauto. }
+    pose proof (resolve_sim rec' (ci_nested i) D (items kw) args Hndargs HR) as Hsim.
+    rewrite (resolve_nested_mono _ _ HleF _ _ _ Eres) in Hsim.
+    destruct (resolve_nested rec' (ci_nested i) args) as [fse| |] eqn:Ee; simpl in Hsim; try contradiction.
+    assert (Heq : fsj = fse).
+    { clear -Hsim HD Hnest. induction Hsim as [|[kx vx] [ky vy] l l' [Hk Hv] _ IHd]; [reflexivity|].
+      simpl in Hk, Hv. subst ky. f_equal; [|exact IHd]. f_equal.
+      destruct Hv as [Hv|[HDx Hno]]; [exact Hv|]. exfalso.
+      apply HD in HDx as [g' Hin]. destruct (Hnest kx g' Hin) as [[n [Hn1 Hn2]] _].
+      exact (Hno n Hn1 Hn2). }
+    subst fse.
+    exists (S M). simpl.
+    rewrite (explicit_args_mono (explicit r f0) (explicit r M)
+                                (fun g0 v0 => explicit_mono f0 M g0 v0 ltac:(unfold M; lia)) _ _ Eargs).
+    simpl. unfold construct, construct_with. fold rec'. rewrite Hi, Eabs.
+    rewrite <- (bind_ok_keys i _ _ Hkeys), Ebind, Ee. reflexivity.
+  Qed.
+End Converse.
+
+(** Both directions: an alias/JSON-built object exists exactly when the explicitly
+    assembled one does, and they are the same object. *)
+Corollary nested_build_iff_l : forall r g fam v,
+    wf_cfg r fam g ->
+    ((exists F, from_arg r F fam (to_json g) = Ok v) <-> (exists f, explicit r f g = Ok v)).
+Proof.
+  intros r g fam v Hwf. split.
+  - intros [F H]. eapply nested_build_conv_l; eauto.
+  - intros [f H]. exists (cfg_depth g + f). now apply nested_build_eq_l.
+Qed.
